@@ -116,7 +116,8 @@ func (c *c01Cluster) start(i int) error {
 	}
 	ml.Transport = &c01Transport{NetTransport: nt, ip: n.ip.String(), net: c.net}
 	conf.NodeName = n.name
-	conf.ReapInterval = time.Hour
+	// the reaper runs often; with hour-long timeouts it may not erase anybody
+	conf.ReapInterval = 100 * time.Millisecond
 	conf.ReconnectInterval = 150 * time.Millisecond
 	conf.ReconnectTimeout = time.Hour
 	conf.TombstoneTimeout = time.Hour
@@ -408,6 +409,15 @@ func c01Gen(rng *rand.Rand, tier string) []Case {
 		n = 60
 	}
 	var out []Case
+	// directed: a member seen failed, then declared left (force-leave of the crashed node), restarts under
+	// the same name and must be seen alive by everybody, also after several reaper passes
+	for i, who := range []int{1, 2} {
+		exp3 := "n0=n0:alive,n1:alive,n2:alive;n1=n0:alive,n1:alive,n2:alive;n2=n0:alive,n1:alive,n2:alive"
+		ops := []string{"nodes 3", "join 1 0", "join 2 0", "settle " + exp3,
+			fmt.Sprintf("kill %d", who), "sleep 600", fmt.Sprintf("forceleave 0 %d", who), "sleep 500",
+			fmt.Sprintf("restart %d 0", who), "sleep 700", "settle " + exp3}
+		out = append(out, Case{ID: fmt.Sprintf("fl%d", i), Ops: ops, Nontrivial: true, Tags: []string{"failed-left-rejoin"}})
+	}
 	for i := 0; i < n; i++ {
 		k := 3 + rng.Intn(3)
 		t := &c01Truth{k: k, state: make([]string, k), everLeft: make([]bool, k)}
